@@ -119,6 +119,7 @@ struct Gen<'a> {
     /// name of the enter_on_poll future in (thread, slot)
     eop_names: BTreeMap<(usize, usize), u64>,
     zero_prefix_used: bool,
+    reinstalls: u32,
     zero_trace_used: bool,
 }
 
@@ -264,6 +265,9 @@ impl<'a> Gen<'a> {
         match a {
             Act::Install(c) => {
                 self.orch.install(c);
+                if self.installed {
+                    self.reinstalls += 1;
+                }
                 self.installed = true;
                 self.log(tb, &format!("I {}", c as u8), "-");
             }
@@ -804,6 +808,12 @@ impl<'a> Gen<'a> {
                 cands.push((30, Act::Install(c)));
             }
         }
+        if self.installed && self.coll == CollSt::Idle && self.reinstalls < 2 && self.nactions > 4 {
+            // a reporter installed again in the middle of everything (set_reporter replaces the
+            // collector: traces in progress are unknown to the new one)
+            let c = match self.prof.force_cancelable { Some(b) => b, None => self.rng.chance(1, 2) };
+            cands.push((1, Act::Install(c)));
+        }
         let in_drain = self.coll == CollSt::Pop || self.coll == CollSt::Check;
         let alive = self.threads.values().filter(|x| x.st != TSt::Gone).count();
         if !in_drain && self.threads.len() < self.prof.max_threads + 2 && alive < self.prof.max_threads {
@@ -1087,6 +1097,7 @@ pub fn generate(seed: u64, first: usize, n: usize, prof_name: &str, out: &mut dy
             stats: &mut stats,
             eop_names: BTreeMap::new(),
             zero_prefix_used: false,
+            reinstalls: 0,
             zero_trace_used: false,
         };
         if prof.name == "collect" && g.rng.chance(1, 3) {
@@ -1183,6 +1194,7 @@ pub fn replay(path: &str, out: &mut dyn Write) {
                 stats: &mut stats,
                 eop_names: BTreeMap::new(),
                 zero_prefix_used: false,
+            reinstalls: 0,
             zero_trace_used: false,
             };
             for toks in acts {
